@@ -7,6 +7,7 @@
 """
 Dict field.
 """
+import copy
 from typing import Any, Dict, List, Optional, Sequence, Tuple, TypeVar, Union
 
 from ..core import AnyField, Config, Field, ValidationError
@@ -206,9 +207,10 @@ class DictField(Field):
 
         default = self.default
         if isinstance(default, dict) and self._use_proxy:
-            default = DictProxy(cfg, self, default)
+            # deep copy: configurations must not share (nested) mutable default state
+            default = DictProxy(cfg, self, copy.deepcopy(default))
         elif default is not None:
-            default = dict(default)
+            default = copy.deepcopy(dict(default))
         cfg._set_default_value(self._key, default)
 
     def to_basic(self, cfg: Config, value: Union[dict, DictProxy]) -> dict:
